@@ -1167,6 +1167,8 @@ impl<'a> Checker<'a>
                     let ev = self.peek()?.cloned();
                     let cause = match p.kind { PKind::Removal(c) => Cause::Rem(c, p.ent), PKind::Despawn => Cause::Despawn(p.ent) };
                     // raised inside a tree: "may run at any later system-command boundary of the same tree" (C09) is violated too
+                    // (a one-off reactor "runs exactly once, on the first of its triggers to fire", C15)
+                    if self.prog.insts[*inst as usize].origin == Origin::Once { fail!(self, "C08", "polled-missing", &["C01", "C02", "C15"], "no run of the one-off reactor {inst} for {cause:?} by its deadline; next observed: {ev:?}"); }
                     if p.in_tree { fail!(self, "C08", "polled-missing", &["C01", "C02", "C09", "C11"], "no run of instance {inst} for {cause:?} by the end of the tree that caused it (something is still waiting to run when the outermost flush returns); next observed: {ev:?}"); }
                     // (a removal / despawn trigger of some reactor was revoked earlier in this run: "registrations of other reactors and
                     // other triggers ... keep working", C06)
@@ -1230,6 +1232,8 @@ impl<'a> Checker<'a>
         {
             Cause::Rem(..) | Cause::Despawn(_) => fail!(self, "C08", "polled-missing", &["C01", "C02"], "instance {} was not scheduled for {:?}; next observed: {:?}", d.target, d.cause, ev),
             Cause::Manual | Cause::SysEvent(..) => fail!(self, "C02", "missing-run", &["C09"], "instance {} was not scheduled for {:?}; next observed: {:?}", d.target, d.cause, ev),
+            // (a despawned reactor is still registered: a reaction scheduled for it must "leave all other registrations working", C18)
+            Cause::Ins(..) | Cause::Mut(..) | Cause::Resource(_) | Cause::Broadcast(..) | Cause::EntityEvent(..) if self.tables.values().any(|v| v.iter().any(|(i, _)| !self.insts[*i as usize].alive)) => fail!(self, "C01", "missing-reaction", &["C02", "C09", "C14", "C18"], "instance {} was not scheduled for {:?} (a despawned reactor is still registered for something: that must not disturb the others); next observed: {:?}", d.target, d.cause, ev),
             // (a reactor some of whose triggers were revoked earlier: "other triggers of the same reactor ... keep working", C06)
             Cause::Ins(..) | Cause::Mut(..) | Cause::Resource(_) if !self.insts[d.target as usize].revoked_keys.is_empty() => fail!(self, "C01", "missing-reaction", &["C02", "C09", "C14", "C06"], "instance {} (some of whose other triggers were revoked earlier) was not scheduled for {:?}; next observed: {:?}", d.target, d.cause, ev),
             Cause::Ins(..) | Cause::Mut(..) | Cause::Resource(_) => fail!(self, "C01", "missing-reaction", &["C02", "C09", "C14"], "instance {} was not scheduled for {:?} (accessor / trigger call must cause one trigger); next observed: {:?}", d.target, d.cause, ev),
